@@ -46,7 +46,8 @@ def check_ez_roundtrip(prog: Program, res: Result, G) -> None:
              "swaps the first two) is in the PlanarBond orbit of the stored "
              "ordering")
     from ..convtables import Fold, UNK
-    efi = prog.fn("graph2rdmol:stereo_mol_graph_to_rdmol")
+    from ..convtables import canon_exporter
+    efi = canon_exporter(prog)
     branch = None
     for n in ast.walk(efi.node):
         if isinstance(n, ast.If) and re.fullmatch(
@@ -203,7 +204,8 @@ def check_optional_label(prog: Program, res: Result) -> None:
              "parity, the importer's branch for that tag must not read the "
              "label unconditionally (HasProp guard / KeyError handler): an "
              "unspecified descriptor has to come back, not raise")
-    efi = prog.fn("graph2rdmol:stereo_mol_graph_to_rdmol")
+    from ..convtables import canon_exporter
+    efi = canon_exporter(prog)
     ifi = prog.fn("rdmol2graph:RDMol2StereoMolGraph.smg_from_rdmol")
     from ..core import ancestors
     for cls, tag in TAG_OF.items():
